@@ -90,6 +90,9 @@ class P:
 
     # ---- types ------------------------------------------------------------------------------
     def ty(self):
+        if self.at("*") and self.peek(1)[1] in ("const", "mut"):  # raw pointer type
+            self.eat()
+            return ("ptr", self.eat()[1] == "mut", self.ty())
         if self.at("&"):
             self.eat()
             if self.peek()[0] == "life":
@@ -265,14 +268,22 @@ class P:
                 if name[0] == "num":
                     e = ("field", e, name[1])
                     continue
+                tfish = None
                 if self.at("::"):  # turbofish
                     self.eat()
                     self.eat("<")
                     d = 1
+                    tfish = []
                     while d:
+                        if self.peek()[0] == "eof":
+                            raise Unsupported("unterminated generic arguments")
                         tk = self.eat()[1]
-                        d += (tk == "<") - (tk == ">")
-                if self.at("("):
+                        d += (tk == "<") - (tk == ">") - 2 * (tk == ">>")
+                        if d > 0:
+                            tfish.append(tk)
+                if self.at("(") and tfish:
+                    e = ("mcall", e, name[1], self.args(), tfish)
+                elif self.at("("):
                     e = ("mcall", e, name[1], self.args())
                 else:
                     e = ("field", e, name[1])
@@ -376,9 +387,11 @@ class P:
                     self.eat()
                     d = 1
                     while d:
+                        if self.peek()[0] == "eof":
+                            raise Unsupported("unterminated generic arguments")
                         tk = self.eat()[1]
-                        d += (tk == "<") - (tk == ">")
-                        if d:
+                        d += (tk == "<") - (tk == ">") - 2 * (tk == ">>")
+                        if d > 0:
                             targs.append(tk)
                     continue
                 path.append(self.eat()[1])
@@ -400,6 +413,8 @@ class P:
                         self.eat()
                 self.eat("}")
                 return ("structlit", path[-1], fields)
+            if targs:
+                return ("path", path, targs)
             return ("path", path)
         if self.at("<"):  # <T>::f
             self.eat()
@@ -550,7 +565,7 @@ class P:
             if self.at(";"):
                 self.eat()
             return None
-        if self.at("fn") or self.at("use"):
+        if self.at("fn") or self.at("use") or (self.at("unsafe") and self.peek(1)[1] == "fn"):
             # nested item: skip (nested fns are collected separately by find_functions)
             d = 0
             while True:
@@ -793,6 +808,7 @@ def find_functions(path, cfg=()):
             MACROS.setdefault(m.group(2), (params, lex(body[bstart + 1:bend - 1])[:-1]))
         except Unsupported:
             pass
+    spans = []
     for m in FN_RE.finditer(src):
         name = m.group(2)
         attrs = re.findall(r"#\[([^\]]*)\]", m.group(1))
@@ -841,6 +857,8 @@ def find_functions(path, cfg=()):
             fn = Fn(name, params, ret, body, attrs, src[m.start():bend])
             fn.owner = owner[1] if owner else None
             fn.cgen = re.findall(r"const\s+(\w+)\s*:", m.group(3) or "")
+            fn.tgen = [g for g in re.findall(r"(?:^|[<,])\s*(\w+)\s*:", m.group(3) or "") if g not in fn.cgen and g != "const"]
+            spans.append((m.start(), bend, name, fn))
             if owner:
                 fns.setdefault(f"{owner[1]}::{name}", fn)
             if name not in fns:
@@ -849,6 +867,11 @@ def find_functions(path, cfg=()):
             errs[name] = str(e)
             if owner:
                 errs[f"{owner[1]}::{name}"] = str(e)
+    # nested fns: additionally stored as `outer::inner` (several functions of a file may each define an `inner`)
+    for (a_, b_, n_, f_) in spans:
+        enc = [(a2, n2) for (a2, b2, n2, f2) in spans if a2 < a_ and b_ <= b2]
+        if enc:
+            fns.setdefault(f"{max(enc)[1]}::{n_}", f_)
     consts = {}
     for m in re.finditer(r"\b(?:const|static)\s+(\w+)\s*:\s*", src):
         # scalar or array constants with literal initialisers
@@ -914,6 +937,41 @@ def eval_cfg(e, cfg):
 
 # ------------------------------------------------------------------------------------------------ values
 WIDTH = {"u8": 8, "u16": 16, "u32": 32, "u64": 64, "u128": 128, "usize": 64, "i32": 32, "i64": 64, "bool": 1}
+# SIMD register types of core::arch (x86 `__m128i`, aarch64 `uint8x16_t` / `uint32x4_t`): the 128-bit register image,
+# element 0 in the least significant bits (see Prelude/X86Intrinsics.lean, Prelude/ArmIntrinsics.lean)
+VEC_TYPES = {"__m128i": 128, "uint8x16_t": 128, "uint32x4_t": 128}
+WIDTH.update(VEC_TYPES)
+
+# extern table: intrinsics of core::arch -> the Lean transcription of the vendor manual in the Prelude.
+#   argument kinds: vN = a value of N bits; imm8 = compile-time constant in 0..=255 passed as `BitVec 8`;
+#   nat = compile-time constant passed as a `Nat`; load16 = pointer, the 16 bytes it points to are passed as one
+#   `BitVec 128` (memory byte 0 most significant, the convention of Prelude/Bytes.lean); store16 = pointer, the result
+#   (`BitVec 128`, memory byte 0 most significant) is written to the 16 bytes it points to.
+EXTERNS = {
+    "_mm_loadu_si128": ("BC.X86._mm_loadu_si128", ("load16",), 128),
+    "_mm_storeu_si128": ("BC.X86._mm_storeu_si128", ("store16", "v128"), None),
+    "_mm_xor_si128": ("BC.X86._mm_xor_si128", ("v128", "v128"), 128),
+    "_mm_aesenc_si128": ("BC.X86._mm_aesenc_si128", ("v128", "v128"), 128),
+    "_mm_aesenclast_si128": ("BC.X86._mm_aesenclast_si128", ("v128", "v128"), 128),
+    "_mm_aesdec_si128": ("BC.X86._mm_aesdec_si128", ("v128", "v128"), 128),
+    "_mm_aesdeclast_si128": ("BC.X86._mm_aesdeclast_si128", ("v128", "v128"), 128),
+    "_mm_aesimc_si128": ("BC.X86._mm_aesimc_si128", ("v128",), 128),
+    "_mm_aeskeygenassist_si128": ("BC.X86._mm_aeskeygenassist_si128", ("v128", "imm8"), 128),
+    "_mm_shuffle_epi32": ("BC.X86._mm_shuffle_epi32", ("v128", "imm8"), 128),
+    "_mm_slli_si128": ("BC.X86._mm_slli_si128", ("v128", "nat8"), 128),
+    "vld1q_u8": ("BC.Arm.vld1q_u8", ("load16",), 128),
+    "vst1q_u8": ("BC.Arm.vst1q_u8", ("store16", "v128"), None),
+    "veorq_u8": ("BC.Arm.veorq_u8", ("v128", "v128"), 128),
+    "vaeseq_u8": ("BC.Arm.vaeseq_u8", ("v128", "v128"), 128),
+    "vaesdq_u8": ("BC.Arm.vaesdq_u8", ("v128", "v128"), 128),
+    "vaesmcq_u8": ("BC.Arm.vaesmcq_u8", ("v128",), 128),
+    "vaesimcq_u8": ("BC.Arm.vaesimcq_u8", ("v128",), 128),
+    "vdupq_n_u8": ("BC.Arm.vdupq_n_u8", ("v8",), 128),
+    "vdupq_n_u32": ("BC.Arm.vdupq_n_u32", ("v32",), 128),
+    "vreinterpretq_u8_u32": ("BC.Arm.vreinterpretq_u8_u32", ("v128",), 128),
+    "vreinterpretq_u32_u8": ("BC.Arm.vreinterpretq_u32_u8", ("v128",), 128),
+    "vgetq_lane_u32": ("BC.Arm.vgetq_lane_u32", ("v128", "lane4"), 32),
+}
 
 
 class BV:
@@ -964,6 +1022,23 @@ class InOutV:
         self.out_slot = Slot(out)
 
 
+class RawPtr:
+    """a raw pointer (`*const T` / `*mut T`) into an object of the environment: `cells` are the leaf slots of the object
+    in memory order, each `cellsize` bytes wide; `off` = byte offset of the pointer; `ty` = pointee type in the normal
+    form of `Exec.norm_ty` (None after a `.cast()` whose target type is not written)"""
+
+    def __init__(self, cells, cellsize, off, ty):
+        self.cells, self.cellsize, self.off, self.ty = cells, cellsize, off, ty
+
+
+class Lanes:
+    """a SIMD register whose storage is also viewed through a `[u32]` slice (`slice::from_raw_parts_mut` over the array
+    of registers): `lanes` = the slots of its 32-bit elements, element 0 first (little-endian: bits 31:0)"""
+
+    def __init__(self, lanes):
+        self.lanes = lanes
+
+
 class Table:
     """a constant table of the crate, not yet fully indexed: Gen.Tables name, dims, element width, flat values"""
 
@@ -1005,6 +1080,8 @@ class Exec:
         self.lines = []
         self.used = {}
         self.depth = 0
+        self.want_ty = {}   # id(expression node) -> type expected by its context (`let x: T = e`, tail expression of a fn)
+        self.fn_stack = []  # names of the functions being executed (resolution of nested fns)
 
     # ---- naming / emission ------------------------------------------------------------------
     def fresh(self, base):
@@ -1048,6 +1125,22 @@ class Exec:
             return Ref(Slot(self.param_value(name, t[2], inputs)))
         if t[0] == "name" and t[1] == "InOut":
             n = BLOCK_SIZES.get(self.self_ty)
+            if n is None and t[2]:
+                # free function: the type is written, `InOut<'_, '_, Block>` or `InOut<'_, '_, Array<Block, N>>`
+                bt = self.norm_ty(self.type_args(t[2])[-1])
+                u8 = ("name", "u8", [])
+                if bt[0] == "arr" and bt[1] == u8:
+                    n = int(bt[2][1])
+                elif bt[0] == "arr" and bt[1][0] == "arr" and bt[1][1] == u8:
+                    m, cnt = int(bt[1][2][1]), int(bt[2][1])
+                    inp = []
+                    for j in range(cnt):
+                        arg = self.fresh(f"{name}{j}")
+                        inputs.append((arg, 8 * m))
+                        inp.append(Slot(Arr([Slot(BV(8, f"{arg}.extractLsb' {8 * (m - 1 - i)} 8", atom=False)) for i in range(m)])))
+                    return InOutV(Arr(inp), Arr([Slot(Arr([Slot(None) for _ in range(m)])) for _ in range(cnt)]))
+                else:
+                    raise Unsupported(f"InOut of {bt}")
             if n is None:
                 raise Unsupported(f"InOut parameter: block size of {self.self_ty} unknown")
             arg = self.fresh(name)
@@ -1129,6 +1222,197 @@ class Exec:
         while isinstance(v, Ref):
             v = v.slot.v
         return v
+
+    # ---- raw pointers and SIMD registers (intrinsics back ends) ----------------------------------
+    def type_args(self, toks):
+        """the arguments `<…>` of a ("name", n, toks) type as parsed types (lifetimes dropped)"""
+        txt = " ".join(toks)
+        txt += " >" * (txt.count("<") - txt.count(">"))  # `P.ty` drops a closing `>>` entirely
+        out = []
+        for part in split_top(txt):
+            part = part.strip()
+            if part and not part.startswith("'"):
+                out.append(P(lex(part)).ty())
+        return out
+
+    def ty_len(self, t):
+        """N of `Array<T, N>`: a typenum `U<n>`, or a generic parameter bound to a number / to a typenum"""
+        if t[0] == "name":
+            g = self.generics.get(t[1], t[1])
+            if isinstance(g, int):
+                return g
+            m = re.fullmatch(r"U(\d+)", g) if isinstance(g, str) else None
+            if m:
+                return int(m.group(1))
+        raise Unsupported(f"array length {t}")
+
+    def norm_ty(self, t):
+        """normal form of a type: ("name", s, []) with s in WIDTH | ("arr", elem, ("num", n)) | ("ptr"/"ref", mut, T)"""
+        t = self.resolve(t)
+        if t[0] == "name" and t[1] in WIDTH:
+            return ("name", t[1], [])
+        if t[0] == "name" and t[1] == "Array" and t[2]:
+            a = self.type_args(t[2])
+            if len(a) != 2:
+                raise Unsupported(f"type {t}")
+            return ("arr", self.norm_ty(a[0]), ("num", str(self.ty_len(a[1]))))
+        if t[0] == "arr" and t[2] is not None:
+            return ("arr", self.norm_ty(t[1]), ("num", str(self.const_of(self.eval(t[2], {})))))
+        if t[0] in ("ptr", "ref"):
+            return (t[0], t[1], self.norm_ty(t[2]))
+        raise Unsupported(f"type {t}")
+
+    def size_of(self, nt):
+        if nt[0] == "name" and WIDTH[nt[1]] % 8 == 0:
+            return WIDTH[nt[1]] // 8
+        if nt[0] == "arr":
+            return int(nt[2][1]) * self.size_of(nt[1])
+        raise Unsupported(f"size of {nt}")
+
+    def ty_of_value(self, v):
+        """type (normal form, up to the names of same-sized scalars) of a fully initialised value; None if unknown"""
+        v = self.deref_all(v)
+        if isinstance(v, BV) and v.w in (8, 16, 32, 64, 128):
+            return ("name", f"u{v.w}", [])
+        if isinstance(v, Arr) and v.slots:
+            ts = [self.ty_of_value(s.v) for s in v.slots]
+            if ts[0] is not None and all(x == ts[0] for x in ts):
+                return ("arr", ts[0], ("num", str(len(ts))))
+        return None
+
+    def leaf_cells(self, v, out):
+        v = self.deref_all(v)
+        if not isinstance(v, Arr):
+            raise Unsupported("pointer to a non-array object")
+        for s_ in v.slots:
+            if isinstance(self.deref_all(s_.v), Arr):
+                self.leaf_cells(s_.v, out)
+            else:
+                out.append(s_)
+
+    def as_raw_ptr(self, v, ty=None, elem=False):
+        """pointer to the first byte of an array object (`x.as_ptr()`: elem=True, the pointee is the element type;
+        `&x` coerced to `*const T`: the pointee type T is given)"""
+        dv = self.deref_all(v)
+        if isinstance(dv, RawPtr):
+            return dv if ty is None else RawPtr(dv.cells, dv.cellsize, dv.off, ty)
+        cells = []
+        self.leaf_cells(dv, cells)
+        ws = {c.v.w if isinstance(c.v, BV) else None for c in cells}
+        if len(ws) != 1 or None in ws or list(ws)[0] % 8:
+            raise Unsupported("pointer to an object that is not an initialised array of integers")
+        if ty is None:
+            ty = self.ty_of_value(dv.slots[0].v if elem else dv)
+        return RawPtr(cells, list(ws)[0] // 8, 0, ty)
+
+    def ptr_method(self, p, name, args, e, env):
+        if name == "cast" and not args:
+            ty = None
+            if len(e) > 4:
+                ty = self.norm_ty(P(lex(" ".join(e[4]))).ty())
+            elif id(e) in self.want_ty:
+                wt = self.resolve(self.want_ty[id(e)])
+                if wt[0] == "ptr":
+                    ty = self.norm_ty(wt[2])
+            return RawPtr(p.cells, p.cellsize, p.off, ty)
+        if name in ("add", "offset") and len(args) == 1:
+            n = self.const_of(self.eval(args[0], env, 64))
+            if p.ty is None:
+                raise Unsupported("arithmetic on a pointer whose pointee type is not known")
+            return RawPtr(p.cells, p.cellsize, p.off + n * self.size_of(p.ty), p.ty)
+        raise Unsupported(f"raw pointer method .{name}()")
+
+    def ptr_bytes(self, p, n):
+        """the slots of the n bytes a pointer points to"""
+        if not isinstance(p, RawPtr):
+            raise Unsupported("raw pointer expected")
+        if p.cellsize != 1:
+            raise Unsupported("byte access through a pointer into non-byte storage")
+        if p.off < 0 or p.off + n > len(p.cells):
+            raise Unsupported(f"pointer access out of bounds: bytes {p.off}..{p.off + n} of an object of {len(p.cells)}")
+        return p.cells[p.off:p.off + n]
+
+    def extern_call(self, name, args, env):
+        """a core::arch intrinsic: a call of its Lean transcription (table EXTERNS)"""
+        lean, kinds, rw = EXTERNS[name]
+        if len(args) != len(kinds):
+            raise Unsupported(f"{name}: {len(args)} arguments")
+        parts, dest = [], None
+        for a, k in zip(args, kinds):
+            if k in ("imm8", "nat8", "lane4"):
+                c = self.const_of(self.eval(a, env, 32))
+                if not (0 <= c < (4 if k == "lane4" else 256)):
+                    raise Unsupported(f"{name}: immediate {c} out of range")
+                parts.append(f"{c:#x}#8" if k == "imm8" else str(c))
+            elif k == "load16":
+                bs = []
+                for s_ in self.ptr_bytes(self.deref_all(self.eval(a, env)), 16):
+                    if s_.v is None:
+                        raise Unsupported(f"{name}: read of uninitialised memory")
+                    bs.append(self.scalar(s_.v))
+                if any(b.w != 8 for b in bs):
+                    raise Unsupported(f"{name}: memory is not bytes")
+                parts.append("(" + " ++ ".join(b.par() for b in bs) + ")")
+            elif k == "store16":
+                dest = self.ptr_bytes(self.deref_all(self.eval(a, env)), 16)
+            else:
+                w = int(k[1:])
+                v = self.scalar(self.eval(a, env, w))
+                if v.w is None:
+                    v = BV(w, const=v.const)
+                if v.w != w:
+                    raise Unsupported(f"{name}: argument of width {v.w}, expected {w}")
+                parts.append(v.par())
+        term = f"{lean} {' '.join(parts)}"
+        if dest is not None:
+            m = self.bind("mem", BV(128, term, atom=False))
+            for i, s_ in enumerate(dest):
+                s_.v = BV(8, f"{m.par()}.extractLsb' {8 * (15 - i)} 8", atom=False)
+            return None
+        return BV(rw, term, atom=False)
+
+    def transmute(self, v, ty):
+        """`mem::transmute` between an integer / SIMD register and an array of integers of the same total size
+        (little-endian: array element 0 = least significant bits)"""
+        nt = self.norm_ty(ty)
+        v = self.deref_all(v)
+        if isinstance(v, BV) and v.w is not None and nt[0] == "arr" and nt[1][0] == "name":
+            w, n = WIDTH[nt[1][1]], int(nt[2][1])
+            if v.w != w * n:
+                raise Unsupported(f"transmute of {v.w} bits to {n} x {w} bits")
+            if v.const is not None:
+                return Arr([Slot(BV(w, const=(v.const >> (w * i)) & ((1 << w) - 1))) for i in range(n)])
+            return Arr([Slot(BV(w, f"{v.par()}.extractLsb' {w * i} {w}", atom=False)) for i in range(n)])
+        if isinstance(v, Arr) and nt[0] == "name":
+            es = [self.scalar(s_.v) for s_ in v.slots]
+            if any(x.w is None for x in es) or sum(x.w for x in es) != WIDTH[nt[1]] or len({x.w for x in es}) != 1:
+                raise Unsupported("transmute: sizes differ")
+            return BV(WIDTH[nt[1]], "(" + " ++ ".join(x.par() for x in reversed(es)) + ")", atom=True)
+        raise Unsupported(f"transmute to {nt}")
+
+    def lanes_value(self, v):
+        """the 128-bit register whose 32-bit elements are the lanes (element 0 = bits 31:0)"""
+        ls = [self.scalar(s_.v) for s_ in v.lanes]
+        if all(x.const is not None for x in ls):
+            return BV(128, const=sum(x.const << (32 * i) for i, x in enumerate(ls)))
+        return BV(128, "BC.X86.ofDwords " + " ".join(x.par() for x in reversed(ls)), atom=False)
+
+    def raw_parts(self, p, n):
+        """`slice::from_raw_parts_mut(p, n)` with p : *mut u32 into an array of freshly zeroed 128-bit registers: the
+        registers are henceforth stored as their four 32-bit elements and the slice aliases those"""
+        if not isinstance(p, RawPtr) or p.ty != ("name", "u32", []) or p.cellsize != 16 or p.off % 16:
+            raise Unsupported("from_raw_parts_mut: only a u32 view of an array of 128-bit registers is supported")
+        first = p.off // 16
+        if n % 4 or first + n // 4 > len(p.cells):
+            raise Unsupported("from_raw_parts_mut: the slice does not cover whole registers of the object")
+        out = []
+        for c in p.cells[first:first + n // 4]:
+            if isinstance(c.v, BV) and c.v.const == 0 and c.v.w == 128:
+                c.v = Lanes([Slot(BV(32, const=0)) for _ in range(4)])
+            if not isinstance(c.v, Lanes):
+                raise Unsupported("from_raw_parts_mut: the registers are not freshly zeroed")
+            out += c.v.lanes
+        return Arr(out)
 
     # ---- expression evaluation --------------------------------------------------------------
     def eval(self, e, env, want=None):
@@ -1326,6 +1610,8 @@ class Exec:
 
     def scalar(self, v):
         v = self.deref_all(v)
+        if isinstance(v, Lanes):
+            return self.lanes_value(v)
         if not isinstance(v, BV):
             raise Unsupported(f"integer expected, got {type(v).__name__}")
         return v
@@ -1336,6 +1622,8 @@ class Exec:
             return v2
         if isinstance(v2, Arr):
             return Arr([Slot(self.copy(s.v)) for s in v2.slots])
+        if isinstance(v2, Lanes):
+            return self.lanes_value(v2)  # a copy does not alias the `[u32]` view
         return v2
 
     def path(self, p, env, want):
@@ -1348,6 +1636,8 @@ class Exec:
             return BV(64, const=self.generics[name])
         if name in ("true", "false") and len(p) == 1:
             return BV(1, const=int(name == "true"))
+        if len(p) == 2 and p[1] == "USIZE" and (isinstance(self.generics.get(p[0]), int) or re.fullmatch(r"U\d+", str(self.generics.get(p[0], p[0])))):
+            return BV(64, const=self.ty_len(("name", p[0], [])))
         if len(p) == 2 and p[0] in WIDTH and p[1] in ("MAX", "BITS", "MIN"):
             w = WIDTH[p[0]]
             return BV(w if p[1] != "BITS" else 32, const={"MAX": (1 << w) - 1, "BITS": w, "MIN": 0}[p[1]])
@@ -1526,6 +1816,9 @@ class Exec:
 
     def cast(self, v, t):
         t = self.resolve(t)
+        if t[0] == "ptr" and isinstance(self.deref_all(v), RawPtr):
+            dv = self.deref_all(v)
+            return RawPtr(dv.cells, dv.cellsize, dv.off, self.norm_ty(t[2]))
         if t[0] == "name" and t[1] in WIDTH:
             v = self.scalar(v)
             w = WIDTH[t[1]]
@@ -1601,7 +1894,17 @@ class Exec:
                 return rv
             if name == "clone_in":
                 return self.copy(rv.inp)
+            if name == "into_raw" and not args:
+                ci, co = [], []
+                self.leaf_cells(rv.inp, ci)
+                self.leaf_cells(rv.out, co)
+                ty = self.ty_of_value(rv.inp)
+                return Arr([Slot(RawPtr(ci, 1, 0, ty)), Slot(RawPtr(co, 1, 0, ty))])
             raise Unsupported(f"InOut method .{name}()")
+        if isinstance(rv, RawPtr):
+            return self.ptr_method(rv, name, args, e, env)
+        if name in ("as_ptr", "as_mut_ptr") and not args and isinstance(rv, Arr):
+            return self.as_raw_ptr(rv, elem=True)
         if isinstance(rv, Struct) and name in ("unwrap", "expect", "clone", "into"):
             return recv
         if isinstance(rv, Struct):
@@ -1763,6 +2066,49 @@ class Exec:
             raise Unsupported("call of a non-path")
         p = f[1]
         name = p[-1]
+        if name in EXTERNS and name not in self.fns:
+            return self.extern_call(name, args, env)
+        if name == "zeroed" and (len(p) == 1 or p[-2] == "mem") and not args and name not in self.fns:
+            if id(e) not in self.want_ty:
+                raise Unsupported("zeroed() of an unknown type")
+            return self.zero_of(self.norm_ty(self.want_ty[id(e)]))
+        if name == "transmute" and (len(p) == 1 or p[-2] == "mem") and len(args) == 1 and name not in self.fns:
+            if id(e) not in self.want_ty:
+                raise Unsupported("transmute to an unknown type")
+            return self.transmute(self.eval(args[0], env), self.want_ty[id(e)])
+        if name == "from_raw_parts_mut" and len(args) == 2 and name not in self.fns:
+            return self.raw_parts(self.deref_all(self.eval(args[0], env)), self.const_of(self.eval(args[1], env, 64)))
+        if len(p) == 1:
+            for scope in reversed(self.fn_stack):  # a fn nested in an enclosing fn
+                if f"{scope}::{name}" in self.fns:
+                    name = f"{scope}::{name}"
+                    break
+        if len(f) > 2 and name in self.fns and getattr(self.fns[name], "cgen", None):
+            # explicit const generic arguments `f::<1, 2>(…)`
+            fn = self.fns[name]
+            groups, cur = [], []
+            for tk in f[2]:
+                if tk == ",":
+                    groups.append(cur)
+                    cur = []
+                else:
+                    cur.append(tk)
+            if cur:
+                groups.append(cur)
+            if getattr(fn, "tgen", None) or len(groups) != len(fn.cgen):
+                raise Unsupported(f"generic arguments of {name}")
+            vals = [self.const_of(self.eval(P(lex(" ".join(g))).expr(), env)) for g in groups]
+            saved_g = {g: self.generics.get(g) for g in fn.cgen}
+            actual = [self.eval(a, env) for a in args]
+            self.generics.update(dict(zip(fn.cgen, vals)))
+            try:
+                return self.inline(fn, actual)
+            finally:
+                for g, v_ in saved_g.items():
+                    if v_ is None:
+                        self.generics.pop(g, None)
+                    else:
+                        self.generics[g] = v_
         if len(p) >= 2 and p[-2] in WIDTH and name in ("from", "try_from"):
             # try_from(..).unwrap(): the value is known to fit at every call site of the crates (C20 site); as a cast
             return self.cast(self.eval(args[0], env), ("name", p[-2], []))
@@ -1855,11 +2201,40 @@ class Exec:
         saved_self = self.self_ty
         if getattr(fn, "owner", None) and not keep_self and fn.owner not in TRAITS:
             self.self_ty = self.generics.get(fn.owner, fn.owner) if not isinstance(self.generics.get(fn.owner), tuple) else fn.owner
+        saved_tg = {}
+        for (pat, t), v in zip(fn.params, actual):
+            # `N: ArraySize` of a parameter type `…Array<T, N>`: N = the length of the actual argument
+            it = t[2] if t[0] in ("ref", "ptr") else t
+            if getattr(fn, "tgen", None) and it[0] == "name" and it[1] == "Array" and it[2] and it[2][-1] in fn.tgen and it[2][-1] not in saved_tg:
+                dv = self.deref_all(v)
+                n_ = len(dv.slots) if isinstance(dv, Arr) else (int(dv.ty[2][1]) if isinstance(dv, RawPtr) and dv.ty and dv.ty[0] == "arr" else None)
+                if n_ is not None:
+                    saved_tg[it[2][-1]] = self.generics.get(it[2][-1])
+                    self.generics[it[2][-1]] = n_
+        tail = fn.body[-1] if fn.body and fn.body[-1][0] == "expr" and not fn.body[-1][2] and fn.ret is not None else None
+        if tail is not None:
+            self.want_ty[id(tail[1])] = fn.ret
+        self.fn_stack.append(fn.name)
+        try:
+            return self.inline_(fn, actual, env, saved_self)
+        finally:
+            self.fn_stack.pop()
+            if tail is not None:
+                self.want_ty.pop(id(tail[1]), None)
+            for g_, v_ in saved_tg.items():
+                if v_ is None:
+                    self.generics.pop(g_, None)
+                else:
+                    self.generics[g_] = v_
+
+    def inline_(self, fn, actual, env, saved_self):
         for (pat, t), v in zip(fn.params, actual):
             if t[0] == "self":
                 env["self"] = Slot(v)
                 continue
             rt = self.resolve(t)
+            if rt[0] == "ptr":
+                v = self.as_raw_ptr(v, self.norm_ty(rt[2]))
             if rt[0] == "name" and rt[1] in WIDTH:
                 v = self.scalar(v)
                 if v.w is None:
@@ -1901,6 +2276,10 @@ class Exec:
             if isinstance(v, Ref):
                 v = v.slot.v
             return self.bind_pat(pat[1], v, env)
+        if pat[0] == "ptup" and v is None:
+            for p in pat[1]:
+                self.bind_pat(p, None, env)
+            return
         if pat[0] == "ptup":
             dv = self.deref_all(v) if not isinstance(v, Arr) else v
             if not isinstance(dv, Arr) or len(dv.slots) != len(pat[1]):
@@ -1935,7 +2314,12 @@ class Exec:
                         el = self.resolve(rt[1])
                         if el[0] == "name" and el[1] in WIDTH:
                             want = WIDTH[el[1]]
-                v = self.eval(st[3], env, want)
+                if st[2] is not None:
+                    self.want_ty[id(st[3])] = st[2]
+                try:
+                    v = self.eval(st[3], env, want)
+                finally:
+                    self.want_ty.pop(id(st[3]), None)
                 if isinstance(v, BV) and v.w is None and want:
                     v = BV(want, const=v.const)
                 if isinstance(v, Arr):
@@ -1999,6 +2383,8 @@ class Exec:
     def assign(self, op, lhs, rhs, env):
         slot = self.lvalue(lhs, env)
         cur = slot.v
+        if isinstance(cur, Lanes):
+            raise Unsupported("assignment to a register whose storage is aliased by a `[u32]` view")
         hint = self.hint(lhs)
         if op == "=":
             want = cur.w if isinstance(cur, BV) else None
@@ -2054,6 +2440,8 @@ def flatten(v, out, ex):
     v = ex.deref_all(v)
     if isinstance(v, BV):
         out.append(v)
+    elif isinstance(v, Lanes):
+        out.append(ex.bind("reg", ex.lanes_value(v)))
     elif isinstance(v, Arr):
         for s in v.slots:
             if s.v is None:
@@ -2116,6 +2504,9 @@ def translate(crate, path, fname, lean_name, lens=None, cfg=(), extra_files=(), 
             env["self"] = Slot(v)
             continue
         ex.bind_pat(pat, v, env)
+    ex.fn_stack.append(fn.name)
+    if fn.body and fn.body[-1][0] == "expr" and not fn.body[-1][2] and fn.ret is not None:
+        ex.want_ty[id(fn.body[-1][1])] = fn.ret
     try:
         r = ex.run_block(fn.body, env)
     except Return as ret:
@@ -2227,11 +2618,12 @@ CIPHER_TARGETS = (
 
 def generate(out_dir=OUT, targets=TARGETS, fname="Funcs.lean"):
     """writes Gen/Funcs.lean; returns the list of broken targets"""
+    extra_imports = sorted({i for t in targets for i in t.get("imports", ())})
     parts = ["/- GENERATED by /verif/translator/funcs.py from /repo — do not edit. -/",
-             "import BlockCiphers.Gen.Tables", "import BlockCiphers.Prelude.GenTypes", "set_option maxRecDepth 100000", "set_option linter.unusedVariables false", "namespace BC.Gen.Fn", ""]
+             "import BlockCiphers.Gen.Tables", "import BlockCiphers.Prelude.GenTypes"] + [f"import {i}" for i in extra_imports] + ["set_option maxRecDepth 100000", "set_option linter.unusedVariables false", "namespace BC.Gen.Fn", ""]
     broken = []
     for t in targets:
-        kw = {k: v for k, v in t.items() if k not in ("crate", "path", "fn", "lean")}
+        kw = {k: v for k, v in t.items() if k not in ("crate", "path", "fn", "lean", "imports")}
         try:
             text, sig = translate(t["crate"], t["path"], t["fn"], t["lean"], **kw)
             parts.append(text)
@@ -2298,6 +2690,46 @@ AES_FILES = {
     "Aes_Fs32": aes_targets(FS32, "fs32", 2),
     "Aes_Fs32c": aes_targets(FS32, "fs32", 2, cfg=("aes_compact",)),
 }
+
+
+NI_T = {"Block": "[u8; 16]", "Block8": "[[u8; 16]; 8]"}
+X86I = ("BlockCiphers.Prelude.X86Intrinsics",)
+ARMI = ("BlockCiphers.Prelude.ArmIntrinsics",)
+
+
+def intrinsics_targets(dir_, pre, imports, par, expand, inv):
+    """AES-NI / ARMv8 back ends of the aes crate: enc/dec (single block and ParBlocks blocks) for KEYS = 11/13/15 round
+    keys, the key expansions, the inverse key schedule, the hazmat functions.  Round keys: one `BitVec 128` (register
+    image) each; blocks and keys: one `BitVec (8n)` each, byte 0 most significant."""
+    kw = dict(types=NI_T, imports=imports)
+    out = []
+    for keys in (11, 13, 15):
+        for d in ("encrypt", "decrypt"):
+            out.append(T("aes", f"aes/src/{dir_}/encdec.rs", d, f"{pre}_{d}_{keys}", generics={"KEYS": keys}, pack_out=16, **kw))
+    out += expand(kw)
+    for keys in (11, 13, 15):
+        out.append(T("aes", f"aes/src/{dir_}/expand.rs", inv, f"{pre}_{inv}_{keys}", generics={"N": keys}, **kw))
+    for keys in (11, 13, 15):
+        for d in ("encrypt_par", "decrypt_par"):
+            out.append(T("aes", f"aes/src/{dir_}/encdec.rs", d, f"{pre}_{d}_{keys}", generics={"KEYS": keys, "ParBlocks": par[keys]}, pack_out=16, **kw))
+    hz = f"aes/src/{dir_}/hazmat.rs"
+    for f in ("cipher_round", "equiv_inv_cipher_round"):
+        out.append(T("aes", hz, f, f"{pre}_hazmat_{f}", packed=("block", "round_key"), pack_out=16, **kw))
+        out.append(T("aes", hz, f + "_par", f"{pre}_hazmat_{f}_par", packed=("blocks", "round_keys"), pack_out=16, **kw))
+    for f in ("mix_columns", "inv_mix_columns"):
+        out.append(T("aes", hz, f, f"{pre}_hazmat_{f}", packed=("block",), pack_out=16, **kw))
+    return out
+
+
+AES_FILES["Aes_Ni"] = intrinsics_targets(
+    "ni", "ni", X86I, {11: 9, 13: 9, 15: 9},
+    lambda kw: [T("aes", "aes/src/ni/expand.rs", f"aes{n}_expand_key", f"ni_aes{n}_expand_key", packed=("key",), **kw) for n in (128, 192, 256)],
+    "inv_keys")
+AES_FILES["Aes_Armv8"] = intrinsics_targets(
+    "armv8", "armv8", ARMI, {11: 21, 13: 19, 15: 17},
+    lambda kw: [T("aes", "aes/src/armv8/expand.rs", "expand_key", f"armv8_expand_key_{l}_{n}", packed=("key",), generics={"L": l, "N": n}, **kw)
+                for l, n in ((16, 11), (24, 13), (32, 15))],
+    "inv_expanded_keys")
 
 
 def cipher_files():
